@@ -1,8 +1,240 @@
 import Librfn.Model.Console
+import Librfn.Spec.Console
+import Librfn.Lemmas.ConsoleTok
+import Librfn.Lemmas.ConsoleTable
+import Librfn.Lemmas.ConsoleInv
+/-!
+# C15 — console line editing, tokenising and dispatch are exact and memory-safe
+
+Model: `Librfn.Model.Console` (hand transcription of `console.c` after the fixes of D7 and D8; tied to
+the C by the correspondence run).  Spec: `Librfn.Spec.Console` (edit stack, line completion, render /
+tokenise round trip, sorted association list).  All theorems are kernel-only (no `bv_decide`).
+
+A *history* (`Op`) is any interleaving of registrations, `console_process`, `console_putchar`,
+scheduler runs, direct `console_run` calls, resumptions of `console_eval` and `console_silent`, of any
+length, with any bytes — the safety theorems quantify over all of them.
+-/
 namespace Librfn.C15
 open Librfn.Model.Console Librfn.Gen.Layout
+open Librfn.Lemmas.ConsoleTok Librfn.Lemmas.ConsoleTable Librfn.Lemmas.ConsoleInv
 
-/-- the facts about the generated layout constants the proofs rely on -/
+/-- the facts about the generated layout constants the proofs rely on (a change of `console.h` that
+    breaks one of them breaks the build, which the check reports) -/
 theorem layout_ok : bufSize = 80 ∧ bufSize ≤ scratchSize ∧ ringLen = 16 ∧ argvLen = 4 ∧ tableCap = 32 := by decide
+
+/-! ## buffer_safe -/
+
+/-- **buffer_safe**: after every history — any bytes, any delivery mechanism, any registrations —
+    the cursor is inside `buf[0..79]`, every single-byte store the console ever made (editing *and*
+    tokenising) went to `buf[0..78]`, nothing left the scratch union (`fault`), the union kept its
+    size, and whenever the console is not inside a command `buf[79]` and everything from the cursor on
+    is NUL; the table keeps its sentinel-terminated shape inside its 32 slots. -/
+theorem buffer_safe (ops : List Op) (hok : ∀ op ∈ ops, OpOk op) :
+    let w := runOps boot ops
+    w.s.bufp ≤ 79 ∧ (∀ o ∈ w.s.wlog, o < 79) ∧ w.s.fault = false ∧ w.s.mem.length = scratchSize ∧
+    (w.s.fpt ≠ 2 → w.s.mem.getD 79 0 = 0 ∧ ∀ j, w.s.bufp ≤ j → w.s.mem.getD j 0 = 0) ∧
+    w.s.ring.length ≤ 15 ∧ w.tab.length = tableCap ∧
+    ∃ named, TableOk w.tab named cmdUnknown := by
+  obtain ⟨named, ht, h⟩ := runOps_inv ops boot hok _ _ initTable_ok (init_inv _)
+  refine ⟨h.bufp, h.wlog, h.nofault, h.memlen, fun hf => ⟨h.clean hf 79 h.bufp, h.clean hf⟩, ?_, ?_, named, ht⟩
+  · have := h.ring; have := ringLen_eq; omega
+  · rw [ht.shape]; exact mkTable_length _ _ ht.fits
+
+set_option maxRecDepth 100000 in
+/-- non-vacuity: a history that registers, types, erases, completes lines by all three mechanisms -/
+example : (runOps boot [.register ⟨some [99], .script 0 1 false true⟩, .process 99, .process 120, .process 8,
+    .putchar 32, .sched, .eval [99, 10, 99, 10]]).s.fault = false := by decide
+
+/-- **the tokeniser writes only inside `[1, strlen)`** (and only NULs), leaves everything from the
+    terminator on untouched and keeps the size of the memory -/
+theorem tokenizer_writes_inside (mem : List Byte) (argv : List (Option Nat)) (len : Nat)
+    (_hlen : strlen? mem = some len) (ha : argv.length = 4) :
+    let t := tokenizeMem mem argv len
+    (∀ o ∈ t.wr, 1 ≤ o ∧ o < len) ∧ (∀ j, len ≤ j → t.mem.getD j 0 = mem.getD j 0) ∧
+    (∀ j, t.mem.getD j 0 ≠ mem.getD j 0 → t.mem.getD j 0 = 0) ∧ t.mem.length = mem.length := by
+  have h := tokenizeMem_inv mem argv len ha
+  exact ⟨h.hwr, h.hframe, h.hzero, h.hlen⟩
+
+/-! ## args_wellformed -/
+
+/-- **args_wellformed**: for every buffer holding a string of length `len` (inside the memory),
+    after `do_tokenize` `1 ≤ argc ≤ 4`; every `argv[i]` is an offset `≤ len`, for `0 < i < argc`
+    strictly inside the line; the string at every `argv[i]` ends at or before `len` (the terminator
+    of the line is still there), and `argv[argc..3]` all point at that terminator: empty strings. -/
+theorem args_wellformed (mem : List Byte) (argv : List (Option Nat)) (len : Nat)
+    (hlen : strlen? mem = some len) (ha : argv.length = 4) :
+    let t := tokenizeMem mem argv len
+    let av := padArgv t.argv t.argc len
+    1 ≤ t.argc ∧ t.argc ≤ 4 ∧ av.length = 4 ∧ t.mem.getD len 0 = 0 ∧
+    (∀ i, i < 4 → ∃ o, av.getD i none = some o ∧ o ≤ len ∧
+        (∃ k, strlen? (t.mem.drop o) = some k ∧ o + k ≤ len) ∧
+        (0 < i → i < t.argc → 0 < o ∧ o < len) ∧ (t.argc ≤ i → o = len ∧ cstr t.mem o = [])) := by
+  have h := tokenizeMem_inv mem argv len ha
+  obtain ⟨hl1, hl2, _⟩ := strlen_spec mem len hlen
+  have hz : (tokenizeMem mem argv len).mem.getD len 0 = 0 := by rw [h.hframe len (Nat.le_refl _)]; exact hl2
+  have hstr : ∀ o, o ≤ len → ∃ k, strlen? ((tokenizeMem mem argv len).mem.drop o) = some k ∧ o + k ≤ len := by
+    intro o ho
+    have hlt : len - o < ((tokenizeMem mem argv len).mem.drop o).length := by
+      rw [List.length_drop, h.hlen]; omega
+    have hzz : ((tokenizeMem mem argv len).mem.drop o).getD (len - o) 0 = 0 := by
+      rw [List.getD_eq_getElem?_getD, List.getElem?_drop, ← List.getD_eq_getElem?_getD]
+      rw [show o + (len - o) = len by omega]; exact hz
+    obtain ⟨k, hk1, hk2⟩ := strlen_exists _ _ hlt hzz
+    exact ⟨k, hk1, by omega⟩
+  refine ⟨h.hargc1, h.hargc4, padArgv_length _ _ _, hz, ?_⟩
+  intro i hi
+  rw [padArgv_getD _ _ _ i hi]
+  by_cases hia : i < (tokenizeMem mem argv len).argc
+  · rw [if_pos hia]
+    obtain ⟨o, ho1, ho2, ho3⟩ := h.hargv i hia
+    exact ⟨o, ho1, ho2, hstr o ho2, fun h0 _ => ho3 h0, fun hge => absurd hia (by omega)⟩
+  · rw [if_neg hia]
+    refine ⟨len, rfl, Nat.le_refl _, hstr len (Nat.le_refl _), fun _ h2 => absurd h2 hia, fun _ => ⟨rfl, ?_⟩⟩
+    unfold cstr
+    have : ((tokenizeMem mem argv len).mem.drop len) = 0 :: ((tokenizeMem mem argv len).mem.drop (len + 1)) := by
+      have hlt : len < (tokenizeMem mem argv len).mem.length := by rw [h.hlen]; exact hl1
+      rw [List.drop_eq_getElem_cons hlt]
+      congr 1
+      have := hz
+      rw [List.getD_eq_getElem?_getD, List.getElem?_eq_getElem hlt] at this
+      simpa using this
+    rw [this]
+    simp [List.takeWhile]
+
+/-- non-vacuity: `cap  a "b c" d e` gives 4 arguments, the fourth takes the rest -/
+example : (tokenizeMem ([99, 97, 112, 32, 32, 97, 32, 34, 98, 32, 99, 34, 32, 100, 32, 101, 0, 0]) [none, none, none, none] 16).argc = 4 := by decide
+
+/-! ## dispatch_exact, register_full_clean -/
+
+/-- the table after registering `cmds` in this order at boot (`none` never happens, see `registerAll_ok`) -/
+def registerAll : Table → List Cmd → Table
+  | tab, [] => tab
+  | tab, c :: rest => match register tab c with
+    | some (t, _) => registerAll t rest
+    | none => registerAll tab rest
+
+/-- every command has a name and no two different commands share one -/
+def NamesInj (l : List Cmd) : Prop :=
+  (∀ c ∈ l, c.name ≠ none) ∧ ∀ c ∈ l, ∀ c' ∈ l, c.name = c'.name → c = c'
+
+theorem findSpec_inj (a : List Byte) (snt c : Cmd) (named : List Cmd) (hd : NamesInj named) (hm : c ∈ named)
+    (hn : c.name = some a) : findSpec a snt named = c := by
+  rcases findSpec_mem a snt named with ⟨_, h2⟩ | ⟨h1, h2⟩
+  · exact absurd hn (h2 c hm)
+  · exact hd.2 _ h1 _ hm (h2.trans hn.symm)
+
+/-- registering commands in any order (as long as there is room) keeps the table well-formed; its
+    named part then holds exactly the old and the new commands -/
+theorem registerAll_ok (snt : Cmd) : ∀ (cmds : List Cmd) (tab : Table) (named : List Cmd),
+    TableOk tab named snt → (∀ c ∈ cmds, c.name ≠ none) → named.length + cmds.length < tableCap →
+    ∃ named', TableOk (registerAll tab cmds) named' snt ∧
+      (∀ c, c ∈ named' ↔ c ∈ cmds ∨ c ∈ named) ∧ named'.length = named.length + cmds.length
+  | [], tab, named, ht, _, _ => ⟨named, ht, fun c => by simp, by simp⟩
+  | c :: rest, tab, named, ht, hd, hroom => by
+    have hcn : c.name ≠ none := hd c (List.mem_cons_self ..)
+    cases hname : c.name with
+    | none => exact absurd hname hcn
+    | some nm =>
+      simp only [List.length_cons] at hroom
+      obtain ⟨hr, hok⟩ := register_room tab named snt c nm ht (by omega) hname
+      have hi := insIdx_le nm named
+      have hmem : ∀ x, x ∈ named.take (insIdx nm named) ++ c :: named.drop (insIdx nm named) ↔ x = c ∨ x ∈ named := by
+        intro x
+        constructor
+        · intro hx
+          rcases List.mem_append.mp hx with hx | hx
+          · exact Or.inr (List.mem_of_mem_take hx)
+          · rcases List.mem_cons.mp hx with rfl | hx
+            · exact Or.inl rfl
+            · exact Or.inr (List.mem_of_mem_drop hx)
+        · intro hx
+          rcases hx with rfl | hx
+          · exact List.mem_append_right _ (List.mem_cons_self ..)
+          · rw [← List.take_append_drop (insIdx nm named) named] at hx
+            rcases List.mem_append.mp hx with hx | hx
+            · exact List.mem_append_left _ hx
+            · exact List.mem_append_right _ (List.mem_cons_of_mem _ hx)
+      have hlen : (named.take (insIdx nm named) ++ c :: named.drop (insIdx nm named)).length = named.length + 1 := by
+        simp [List.length_take, List.length_drop]; omega
+      obtain ⟨named', h1, h3, h4⟩ := registerAll_ok snt rest _ _ hok (fun x hx => hd x (List.mem_cons_of_mem _ hx)) (by rw [hlen]; omega)
+      refine ⟨named', ?_, ?_, ?_⟩
+      · simp only [registerAll, hr]; exact h1
+      · intro x
+        rw [h3 x, hmem x]
+        simp only [List.mem_cons]
+        constructor
+        · rintro (h | h | h)
+          · exact Or.inl (Or.inr h)
+          · exact Or.inl (Or.inl h)
+          · exact Or.inr h
+        · rintro ((h | h) | h)
+          · exact Or.inr (Or.inl h)
+          · exact Or.inl h
+          · exact Or.inr (Or.inr h)
+      · rw [h4, hlen]; simp only [List.length_cons]; omega
+
+/-- **dispatch_exact**: register any commands with distinct names (none called `echo` or `help`), in
+    any order, at most 29 of them; then for every buffer whose `argv[0]` string is `a`,
+    `find_command` selects the command registered under exactly the name `a` if there is one, the
+    built-in `echo`/`help` for their names, and otherwise the sentinel (which prints "Unknown/bad
+    command" for a non-empty `a` and nothing for an empty line) — never a command with another name. -/
+theorem dispatch_exact (cmds : List Cmd) (hinj : NamesInj (cmds ++ [cmdEcho, cmdHelp]))
+    (hroom : cmds.length + 2 < tableCap) (s : St) (o : Nat) (h0 : s.argv.getD 0 none = some o) :
+    let s' := findCommand (registerAll initTable cmds) s
+    s'.fault = s.fault ∧
+    (∀ c ∈ cmds ++ [cmdEcho, cmdHelp], c.name = some (cstr s.mem o) → s'.cmd = some c) ∧
+    ((∀ c ∈ cmds ++ [cmdEcho, cmdHelp], c.name ≠ some (cstr s.mem o)) → s'.cmd = some cmdUnknown) := by
+  obtain ⟨named', ht, hmem, _⟩ := registerAll_ok cmdUnknown cmds initTable [cmdEcho, cmdHelp] initTable_ok
+    (fun c hc => hinj.1 c (List.mem_append_left _ hc)) (by simp; omega)
+  have hinj' : NamesInj named' := by
+    refine ⟨fun c hc => hinj.1 c (List.mem_append.mpr ((hmem c).mp hc)), ?_⟩
+    intro c hc c' hc' he
+    exact hinj.2 c (List.mem_append.mpr ((hmem c).mp hc)) c' (List.mem_append.mpr ((hmem c').mp hc')) he
+  have hfl := findLoop_mkTable (cstr s.mem o) cmdUnknown ht.sentinel (tableCap - named'.length - 1) named' ht.names
+  have hshape : registerAll initTable cmds = named'.map some ++ some cmdUnknown :: List.replicate (tableCap - named'.length - 1) none := ht.shape
+  have hfc : findCommand (registerAll initTable cmds) s = { s with cmd := some (findSpec (cstr s.mem o) cmdUnknown named') } := by
+    unfold findCommand
+    simp only [h0, hshape, hfl]
+  rw [hfc]
+  refine ⟨rfl, ?_, ?_⟩
+  · intro c hc hn
+    show some (findSpec (cstr s.mem o) cmdUnknown named') = some c
+    rw [findSpec_inj _ _ c named' hinj' ((hmem c).mpr (List.mem_append.mp hc)) hn]
+  · intro hnone
+    show some (findSpec (cstr s.mem o) cmdUnknown named') = some cmdUnknown
+    rcases findSpec_mem (cstr s.mem o) cmdUnknown named' with ⟨h1, _⟩ | ⟨h1, h2⟩
+    · rw [h1]
+    · exact absurd h2 (hnone _ (List.mem_append.mpr ((hmem _).mp h1)))
+
+/-- non-vacuity: `cap`, `ca`, `c` registered in this order; the line `ca` runs `ca` -/
+example : (findCommand (registerAll initTable [⟨some [99, 97, 112], .script 0 0 false false⟩, ⟨some [99, 97], .script 1 0 false false⟩,
+    ⟨some [99], .script 2 0 false false⟩]) { init with argv := [some 0, none, none, none], mem := [99, 97, 0] }).cmd
+    = some ⟨some [99, 97], .script 1 0 false false⟩ := by decide
+
+/-- **register_full_clean**: in every reachable table (any history), `console_register` either
+    inserts (return value 0, one more entry, still well-formed) or — exactly when the 32 slots hold 31
+    named commands and the sentinel — returns −1 and leaves the table unchanged; the table never has
+    more than 32 slots.  From boot (echo, help, sentinel) that is the 30th user registration. -/
+theorem register_full_clean (ops : List Op) (hok : ∀ op ∈ ops, OpOk op) (cmd : Cmd) (hname : cmd.name ≠ none) :
+    let w := runOps boot ops
+    ∃ named, TableOk w.tab named cmdUnknown ∧
+      (named.length + 1 = tableCap → register w.tab cmd = some (w.tab, -1)) ∧
+      (named.length + 1 < tableCap → ∃ t' named', register w.tab cmd = some (t', 0) ∧ TableOk t' named' cmdUnknown ∧
+          named'.length = named.length + 1 ∧ t'.length = tableCap) := by
+  obtain ⟨named, ht, _⟩ := runOps_inv ops boot hok _ _ initTable_ok (init_inv _)
+  refine ⟨named, ht, fun hfull => register_full _ named _ cmd ht hfull, fun hroom => ?_⟩
+  cases hn : cmd.name with
+  | none => exact absurd hn hname
+  | some nm =>
+    obtain ⟨hr, hok'⟩ := register_room _ named cmdUnknown cmd nm ht hroom hn
+    have hi := insIdx_le nm named
+    have hlen : (named.take (insIdx nm named) ++ cmd :: named.drop (insIdx nm named)).length = named.length + 1 := by
+      simp [List.length_take, List.length_drop]; omega
+    exact ⟨_, _, hr, hok', hlen, by rw [mkTable_length _ _ (by rw [hlen]; omega)]⟩
+
+/-- the 30th registration after boot fails, the 29th succeeds (concrete count) -/
+example : let cmds := (List.range 30).map fun i => (⟨some [65 + i], .script i 0 false false⟩ : Cmd)
+    (register (registerAll initTable (cmds.take 29)) (cmds.getD 29 cmdEcho)).map (·.2) = some (-1) ∧
+    (register (registerAll initTable (cmds.take 28)) (cmds.getD 28 cmdEcho)).map (·.2) = some 0 := by decide
 
 end Librfn.C15
